@@ -126,7 +126,7 @@ class AtomGraph:
                 static_graph.add_edge(*edge, **edge_data)
         return static_graph
 
-    def _fill_static_edges(self, current_atom):
+    def _fill_static_edges(self, current_atom, reactive=True):
         stochastic_node = self.graph.nodes[current_atom]["stochastic_node"]
         static_tree = nx.dfs_tree(self.static_graph, source=stochastic_node)
         static_map = {self.graph.nodes[current_atom]["stochastic_node"]: current_atom}
@@ -134,7 +134,10 @@ class AtomGraph:
         for node in static_tree:
             if self.graph.nodes[current_atom]["stochastic_node"] != node:
                 local_node = self._add_node(
-                    node, transition_allowed=True, termination_allowed=True, stochastic_allowed=True
+                    node,
+                    transition_allowed=reactive,
+                    termination_allowed=reactive,
+                    stochastic_allowed=reactive,
                 )
                 static_map[node] = local_node
 
@@ -264,6 +267,8 @@ class AtomGraph:
                 stochastic_allowed=False,
             )
             self.graph.add_edge(node, last_node_id, bond_type=edge_info["bond_type"])
+            # An end group is added as a whole, not only its attachment atom.
+            self._fill_static_edges(last_node_id, reactive=False)
 
             node_data = self.graph.nodes[node]
             # Since we are fulfilling this termination, we clear the node
